@@ -1004,7 +1004,7 @@ Record WF (s : st) : Prop := {
   w_len : length (nxt s) = nslots s;
   w_next : map (nnext s) (lst s) = map enc (succs (lst s));
   w_lk : forall n t, (n < nslots s)%nat -> sst (slot_at s n) = SCan t -> linked (slot_at s n) = true -> In n (vis s);
-  w_w1 : forall t n, cst s t = W1Take n -> linked (slot_at s n) = false
+  w_w1 : forall t n, mtx s = Some t -> cst s t = W1Take n -> linked (slot_at s n) = false
 }.
 
 Lemma succs_cons2 : forall a b r, succs (a :: b :: r) = Some b :: succs (b :: r).
@@ -1466,19 +1466,646 @@ Proof.
   - constructor.
 Qed.
 
-Theorem step_inv : forall s t s', Inv s -> step cfg_fixed s t = Some s' -> Inv s'.
+Theorem step_inv : forall s t s', Inv s -> WF s -> step cfg_fixed s t = Some s' -> Inv s'.
 Proof.
-  intros s t s' I H. unfold step in H. destruct (t <? length (clients s))%nat.
+  intros s t s' I W H. unfold step in H. destruct (t <? length (clients s))%nat.
   - destruct (nth_error (clients s) t) eqn:E; [|discriminate]. eapply step_client_inv; eauto.
   - destruct (nth_error (coros s) (t - length (clients s))) eqn:E; [|discriminate]. eapply step_coro_inv; eauto.
 Qed.
 
-Theorem reachable_inv : forall v0 cps kps s, reachable st (step cfg_fixed) (init v0 cps kps) s -> Inv s.
+
+(* ------------------------------------------------------------------ preservation of WF *)
+Lemma slot_at_oob : forall s x, (nslots s <= x)%nat -> slot_at s x = dummy_slot.
+Proof. intros. unfold slot_at. apply nth_overflow. exact H. Qed.
+
+(* generic preservation: link flags only get cleared, nobody becomes "being cancelled" out of nowhere, a node leaves the
+   visible list only with its prev cleared *)
+Lemma WF_mono : forall s s',
+  Inv s -> WF s -> Inv s' ->
+  length (nxt s') = nslots s' ->
+  map (nnext s') (lst s') = map enc (succs (lst s')) ->
+  (forall x t, sst (slot_at s' x) = SCan t -> linked (slot_at s' x) = true -> linked (slot_at s x) = true) ->
+  (forall x t, sst (slot_at s' x) = SCan t -> (exists t0, sst (slot_at s x) = SCan t0) \/ sst (slot_at s x) = SQueued) ->
+  (forall x t, sst (slot_at s' x) = SCan t -> In x (vis s) -> In x (vis s') \/ linked (slot_at s' x) = false) ->
+  (forall t n, mtx s' = Some t -> cst s' t = W1Take n ->
+     (mtx s = Some t /\ cst s t = W1Take n /\ (linked (slot_at s' n) = true -> linked (slot_at s n) = true)) \/
+     linked (slot_at s' n) = false) ->
+  WF s'.
 Proof.
-  intros v0 cps kps s H. eapply (inv_reachable st (step cfg_fixed) Inv); eauto.
-  - apply Inv_init.
-  - intros. eapply step_inv; eauto.
+  intros s s' I W I' Hlen Hnext Hlk Hsc Hvis Hw1. constructor; auto.
+  - intros n t Hn Hg Hl. pose proof (Hlk n t Hg Hl) as Hl0.
+    assert (Hn0 : (n < nslots s)%nat).
+    { destruct (Nat.lt_ge_cases n (nslots s)); auto. rewrite slot_at_oob in Hl0 by auto. discriminate. }
+    assert (Hin : In n (vis s)).
+    { destruct (Hsc n t Hg) as [[t0 Ht0]|Hq]; [eapply (w_lk _ W); eauto|].
+      pose proof (i_slot _ I n Hn0) as S. unfold slot_ok in S. rewrite Hq in S. tauto. }
+    destruct (Hvis n t Hg Hin) as [|Hf]; auto. congruence.
+  - intros t n Hm Hp. destruct (Hw1 t n Hm Hp) as [(A & B & C)|]; auto.
+    destruct (linked (slot_at s' n)) eqn:E; auto. rewrite (w_w1 _ W t n A B) in C. symmetry. apply C. reflexivity.
 Qed.
+
+(* steps that leave slots, list, link fields and the mutex holder's program counter alone *)
+Lemma WF_simple : forall s s' t,
+  Inv s -> WF s -> Inv s' -> slots s' = slots s -> nxt s' = nxt s -> lst s' = lst s -> mtx s' = mtx s ->
+  (forall t', t' <> t -> cst s' t' = cst s t') -> chain_pc (cst s' t) = chain_pc (cst s t) ->
+  (forall n, cst s' t = W1Take n -> cst s t = W1Take n) ->
+  WF s'.
+Proof.
+  intros s s' t I W I' Hsl Hnx Hlst Hmtx Hcne Hch Hw.
+  assert (Hs : forall m, slot_at s' m = slot_at s m) by (intro; apply slot_at_frame; auto).
+  assert (Hv : vis s' = vis s) by (apply (vis_same s s' t); auto).
+  apply (WF_mono s s' I W I').
+  - unfold nslots. rewrite Hnx, Hsl. apply (w_len _ W).
+  - unfold nnext. rewrite Hnx, Hlst. apply (w_next _ W).
+  - intros x t0 _. now rewrite Hs.
+  - intros x t0 H. rewrite Hs in H. eauto.
+  - intros x t0 _ H. left. now rewrite Hv.
+  - intros t0 n Hm Hp. left. rewrite Hmtx in Hm. split; auto. rewrite Hs. split; auto.
+    destruct (Nat.eq_dec t0 t) as [->|Hn]; [apply Hw; auto | rewrite <- Hcne; auto].
+Qed.
+
+Lemma resume_node_fields : forall s n,
+  slots (resume_node s n) = slots s /\ nxt (resume_node s n) = nxt s /\ lst (resume_node s n) = lst s /\
+  mtx (resume_node s n) = mtx s /\ clients (resume_node s n) = clients s.
+Proof.
+  intros. unfold resume_node. destruct (nth_error (coros s) (nco (slot_at s n))) as [k|]; [destruct (kstv k)|];
+    repeat split; reflexivity.
+Qed.
+
+(* one slot rewritten (its prev flag kept or cleared), link array untouched *)
+Lemma WF_put : forall s s' n sl',
+  Inv s -> WF s -> Inv s' -> slots s' = set_nth n sl' (slots s) -> nxt s' = nxt s ->
+  (linked sl' = true -> linked (slot_at s n) = true) ->
+  (forall t, sst sl' = SCan t -> (exists t0, sst (slot_at s n) = SCan t0) \/ sst (slot_at s n) = SQueued) ->
+  map (nnext s) (lst s') = map enc (succs (lst s')) ->
+  (forall x t, sst (slot_at s' x) = SCan t -> In x (vis s) -> In x (vis s') \/ linked (slot_at s' x) = false) ->
+  (forall t m, mtx s' = Some t -> cst s' t = W1Take m ->
+     (mtx s = Some t /\ cst s t = W1Take m) \/ linked (slot_at s' m) = false) ->
+  WF s'.
+Proof.
+  intros s s' n sl' I W I' Hsl Hnx Hl Hg Hnext Hvis Hw1.
+  assert (Hs : forall x, slot_at s' x = if (Nat.eqb x n && (n <? nslots s)%nat)%bool then sl' else slot_at s x).
+  { intro x. rewrite (slot_at_slots s s' n sl' x Hsl). apply slot_at_put. }
+  apply (WF_mono s s' I W I'); auto.
+  - unfold nslots. rewrite Hnx, Hsl, length_set_nth. apply (w_len _ W).
+  - unfold nnext in *. rewrite Hnx. exact Hnext.
+  - intros x t Hx Hlk. rewrite Hs in Hx, Hlk. destruct (Nat.eqb x n && (n <? nslots s)%nat)%bool eqn:E; auto.
+    apply andb_prop in E. destruct E as [E _]. apply Nat.eqb_eq in E. subst x. auto.
+  - intros x t Hx. rewrite Hs in Hx. destruct (Nat.eqb x n && (n <? nslots s)%nat)%bool eqn:E; eauto.
+    apply andb_prop in E. destruct E as [E _]. apply Nat.eqb_eq in E. subst x. eauto.
+  - intros t m Hm Hp. destruct (Hw1 t m Hm Hp) as [[A B]|]; auto. left. split; auto. split; auto.
+    rewrite Hs. destruct (Nat.eqb m n && (n <? nslots s)%nat)%bool eqn:E; auto.
+    apply andb_prop in E. destruct E as [E _]. apply Nat.eqb_eq in E. subst m. auto.
+Qed.
+
+Lemma w_next_tail : forall (f : nat -> Z) a r, map f (a :: r) = map enc (succs (a :: r)) -> map f r = map enc (succs r).
+Proof. intros f a [|b r'] H; [reflexivity|]. rewrite succs_cons2 in H. cbn [map] in H. inversion H. assumption. Qed.
+Lemma unlink_mark_mono : forall s n x, linked (slot_at (unlink_mark s n) x) = true -> linked (slot_at s x) = true.
+Proof.
+  intros s n x. unfold unlink_mark. rewrite slot_at_put. destruct (Nat.eqb x n && (n <? nslots s)%nat)%bool; auto. cbn. discriminate.
+Qed.
+Lemma nnext_set_eq : forall s n z, (n < length (nxt s))%nat -> nnext (set_nnext s n z) n = z.
+Proof. intros. unfold nnext, set_nnext. cbn. apply nth_set_nth_eq. exact H. Qed.
+Lemma nnext_set_ne : forall s n z x, x <> n -> nnext (set_nnext s n z) x = nnext s x.
+Proof. intros. unfold nnext, set_nnext. cbn. apply nth_set_nth_ne. auto. Qed.
+Lemma chain_next_len : forall l s, length (nxt (chain_next s l)) = length (nxt s).
+Proof. induction l as [|a l IH]; intro s; cbn [chain_next]; auto. rewrite IH. unfold set_nnext. cbn. apply length_set_nth. Qed.
+Lemma chain_next_nnext : forall l s x, ~ In x l -> nnext (chain_next s l) x = nnext s x.
+Proof.
+  induction l as [|a l IH]; intros s x H; cbn [chain_next]; auto. rewrite IH by (intro; apply H; cbn; auto).
+  apply nnext_set_ne. intro; subst. apply H. cbn; auto.
+Qed.
+Lemma map_nnext_ext : forall s s' l, (forall x, In x l -> nnext s' x = nnext s x) -> map (nnext s') l = map (nnext s) l.
+Proof. intros. apply map_ext_in. auto. Qed.
+
+Lemma pred_of_notin : forall l n, ~ In n l -> pred_of l n = None.
+Proof.
+  induction l as [|a r IH]; intros n H; cbn; auto. destruct r as [|b r']; auto.
+  destruct (Nat.eqb_spec b n) as [->|]; [exfalso; apply H; cbn; auto|]. apply IH. intro; apply H; cbn; auto.
+Qed.
+Lemma pred_of_hd : forall a r n, ~ In n r -> pred_of (a :: r) n = None.
+Proof.
+  intros a [|b r'] n H; [reflexivity|]. change (pred_of (a :: b :: r') n) with (if Nat.eqb b n then Some a else pred_of (b :: r') n).
+  destruct (Nat.eqb_spec b n) as [->|]; [exfalso; apply H; cbn; auto|]. apply pred_of_notin. exact H.
+Qed.
+Lemma pred_of_in : forall l n p, pred_of l n = Some p -> In p l.
+Proof.
+  induction l as [|a r IH]; intros n p H; cbn in H; [discriminate|]. destruct r as [|b r']; [discriminate|].
+  destruct (Nat.eqb b n); [inversion H; cbn; auto|]. right. eapply IH; eauto.
+Qed.
+Lemma remove_nat_notin : forall n l, ~ In n l -> remove_nat n l = l.
+Proof. induction l as [|a r IH]; intro H; cbn; auto. destruct (Nat.eqb_spec a n) as [->|]; [exfalso; apply H; cbn; auto|].
+  f_equal. apply IH. intro; apply H; cbn; auto. Qed.
+
+(* unlinking n: its predecessor inherits its next pointer *)
+Lemma next_remove : forall (f : nat -> Z) l n, NoDup l -> map f l = map enc (succs l) -> In n l ->
+  map (fun x => if match pred_of l n with Some p => Nat.eqb x p | None => false end then f n else f x) (remove_nat n l) =
+  map enc (succs (remove_nat n l)).
+Proof.
+  induction l as [|a r IH]; intros n Hnd H Hin; [destruct Hin|].
+  inversion Hnd as [|? ? Ha Hr]; subst.
+  destruct (Nat.eq_dec a n) as [->|Han].
+  - cbn [remove_nat]. rewrite Nat.eqb_refl. rewrite (remove_nat_notin n r Ha). rewrite (pred_of_hd n r n Ha).
+    apply w_next_tail in H. exact H.
+  - destruct Hin as [|Hin]; [contradiction|]. cbn [remove_nat]. destruct (Nat.eqb_spec a n) as [|_]; [contradiction|].
+    destruct r as [|b r']; [destruct Hin|].
+    pose proof (w_next_tail _ _ _ H) as Ht. rewrite succs_cons2 in H. cbn [map] in H. injection H as Hfa Hrest.
+    inversion Hr as [|? ? Hb Hr']; subst.
+    destruct (Nat.eq_dec b n) as [->|Hbn].
+    + (* a is the predecessor *)
+      assert (Hp : pred_of (a :: n :: r') n = Some a) by (cbn; rewrite Nat.eqb_refl; reflexivity). rewrite Hp.
+      cbn [remove_nat]. rewrite Nat.eqb_refl. rewrite (remove_nat_notin n r' Hb).
+      cbn [map]. rewrite Nat.eqb_refl.
+      assert (Hext : map (fun x => if Nat.eqb x a then f n else f x) r' = map f r').
+      { apply map_ext_in. intros x Hx. destruct (Nat.eqb_spec x a) as [->|]; auto. exfalso. apply Ha. cbn; auto. }
+      rewrite Hext. destruct r' as [|c r''].
+      * cbn in *. exact Ht.
+      * rewrite succs_cons2 in *. cbn [map] in *. exact Ht.
+    + assert (Hp : pred_of (a :: b :: r') n = pred_of (b :: r') n).
+      { cbn [pred_of]. destruct (Nat.eqb_spec b n); [contradiction|]. reflexivity. }
+      rewrite Hp. specialize (IH n Hr Ht Hin).
+      cbn [remove_nat] in *. destruct (Nat.eqb_spec b n) as [|_]; [contradiction|]. rewrite succs_cons2. cbn [map].
+      assert (Hna : match pred_of (b :: r') n with Some p => Nat.eqb a p | None => false end = false).
+      { destruct (pred_of (b :: r') n) eqn:E; auto. apply Nat.eqb_neq. intro; subst. apply Ha. eapply pred_of_in; eauto. }
+      rewrite Hna, Hfa. f_equal. exact IH.
+Qed.
+
+(* thread t rewrites a node it owns (prev flag kept, not "being cancelled" afterwards); list, links, mutex untouched *)
+Lemma WF_own : forall s s' t n sl',
+  Inv s -> WF s -> Inv s' -> slots s' = set_nth n sl' (slots s) -> nxt s' = nxt s -> lst s' = lst s -> mtx s' = mtx s ->
+  linked sl' = linked (slot_at s n) -> (forall t0, sst sl' <> SCan t0) ->
+  (forall t', t' <> t -> cst s' t' = cst s t') -> chain_pc (cst s' t) = chain_pc (cst s t) ->
+  (forall m, cst s' t <> W1Take m) ->
+  WF s'.
+Proof.
+  intros s s' t n sl' I W I' Hsl Hnx Hlst Hmtx Hlk Hg Hcne Hch Hw.
+  assert (Hv : vis s' = vis s) by (apply (vis_same s s' t); auto).
+  apply (WF_put s s' n sl' I W I'); auto.
+  - intro H. congruence.
+  - intros t0 H. exfalso. eapply Hg; eauto.
+  - rewrite Hlst. apply (w_next _ W).
+  - intros x t0 _ H. left. now rewrite Hv.
+  - intros t0 m Hm Hp. left. rewrite Hmtx in Hm. split; auto.
+    destruct (Nat.eq_dec t0 t) as [->|Hn]; [exfalso; eapply Hw; eauto | rewrite <- Hcne; auto].
+Qed.
+
+Lemma w1_pop_wf : forall s t cl m r p,
+  Inv s -> WF s -> nth_error (clients s) t = Some cl -> cst s t = p -> lst s = m :: r ->
+  (mtx s = None /\ chain_pc p = []) \/ (mtx s = Some t /\ exists q, p = W1Take q) ->
+  Inv (set_client (set_mtx (set_nnext (unlink_mark (set_lst s r) m) m 0) (Some t)) t (goto cl (W1Take m))) ->
+  WF (set_client (set_mtx (set_nnext (unlink_mark (set_lst s r) m) m 0) (Some t)) t (goto cl (W1Take m))).
+Proof.
+  intros s t cl m r p I W Hcl Hp El Hm I'. set (s' := set_client _ t _) in *.
+  assert (Hs : forall x, slot_at s' x = slot_at (unlink_mark (set_lst s r) m) x) by reflexivity.
+  assert (Hc1 : cst s' t = W1Take m) by (unfold s'; ceq Hcl).
+  assert (Hv' : vis s' = r ++ [m]).
+  { rewrite (vis_eq s' r (Some t)) by reflexivity. rewrite Hc1. reflexivity. }
+  pose proof (i_vis_nodup _ I) as Hnd.
+  assert (Hvs : exists c, vis s = (m :: r) ++ c /\ (forall q, In q c -> linked (slot_at s q) = false)).
+  { destruct Hm as [[Em Ec]|[Em (q & Eq)]].
+    - exists []. split; [|intros q []]. rewrite (vis_eq s (m :: r) None); auto.
+    - exists [q]. split. + rewrite (vis_eq s (m :: r) (Some t)); auto. rewrite Hp, Eq. reflexivity.
+      + intros q' [<-|[]]. apply (w_w1 _ W t q Em). congruence. }
+  destruct Hvs as (c & Hvs & Hc). rewrite Hvs in Hnd.
+  assert (Hmr : ~ In m r). { apply NoDup_app_l in Hnd. inversion Hnd; auto. }
+  assert (Hmlt : (m < nslots s)%nat). { apply (i_vis _ I). rewrite Hvs. cbn. auto. }
+  apply (WF_mono s s' I W I').
+  - unfold s', nslots, unlink_mark, set_nnext, put_slot. cbn. rewrite !length_set_nth. apply (w_len _ W).
+  - change (lst s') with r. pose proof (w_next _ W) as Hn. rewrite El in Hn. apply w_next_tail in Hn. rewrite <- Hn.
+    apply map_ext_in. intros x Hx. change (nnext s' x) with (nnext (set_nnext (unlink_mark (set_lst s r) m) m 0) x).
+    rewrite nnext_set_ne by (intro; subst; contradiction). reflexivity.
+  - intros x t0 _ H. rewrite Hs in H. apply unlink_mark_mono in H. exact H.
+  - intros x t0 H. rewrite Hs in H. destruct (unlink_mark_core (set_lst s r) m x) as (_ & _ & _ & _ & _ & e6). rewrite e6 in H. eauto.
+  - intros x t0 _ Hx. rewrite Hvs in Hx. rewrite Hv'. apply in_app_iff in Hx. destruct Hx as [[<-|Hx]|Hx].
+    + left. apply in_app_iff. cbn. auto.
+    + left. apply in_app_iff. auto.
+    + right. destruct (linked (slot_at s' x)) eqn:E; auto. rewrite Hs in E. apply unlink_mark_mono in E.
+      change (slot_at (set_lst s r) x) with (slot_at s x) in E. rewrite (Hc x Hx) in E. discriminate.
+  - intros t0 n0 Hm0 Hp0. right. change (mtx s') with (Some t) in Hm0. inversion Hm0; subst t0. rewrite Hc1 in Hp0. inversion Hp0; subst n0.
+    rewrite Hs. unfold unlink_mark. rewrite slot_at_put_eq by exact Hmlt. reflexivity.
+Qed.
+
+Lemma watake_wf : forall s t cl n r taken p' s',
+  Inv s -> WF s -> Inv s' -> nth_error (clients s) t = Some cl -> cst s t = WATake (n :: r) taken ->
+  let s0 := unlink_mark s n in
+  let ok := take_ok s0 n (nidv (slot_at s0 n)) in
+  let s1 := if ok then take s0 n (SHeld t) else s0 in
+  let taken' := if ok then taken ++ [n] else taken in
+  chain_pc p' = r -> (forall m, p' <> W1Take m) ->
+  slots s' = slots s1 -> length (nxt s') = length (nxt s) -> (forall x, ~ In x taken' -> nnext s' x = nnext s x) ->
+  lst s' = lst s -> mtx s' = match r with [] => None | _ => Some t end ->
+  (forall t', t' <> t -> cst s' t' = cst s t') -> cst s' t = p' ->
+  WF s'.
+Proof.
+  intros s t cl n r taken p' s' I W I' Hcl Hp s0 ok s1 taken' Hch Hnw Hsl Hlen Hnx Hlst Hmtx Hcne Hct.
+  destruct (i_thread _ I t) as (A & B & _ & _ & E). rewrite Hp in A, B, E. cbn [held_pc chain_pc] in A, B, E.
+  assert (Em : mtx s = Some t) by (apply E; discriminate).
+  assert (Hv : vis s = lst s ++ n :: r) by (rewrite (vis_eq s (lst s) (Some t)); auto; now rewrite Hp).
+  assert (Hv' : vis s' = lst s ++ r).
+  { rewrite (vis_eq s' (lst s) (mtx s')); auto. rewrite Hmtx. destruct r; [now rewrite app_nil_r|]. rewrite Hct, Hch. reflexivity. }
+  pose proof (i_vis_nodup _ I) as Hnd. rewrite Hv in Hnd.
+  assert (Hnin : In n (vis s)) by (rewrite Hv; apply in_app_iff; cbn; auto).
+  destruct (i_vis _ I n Hnin) as [Hn Hst].
+  assert (Hs1 : forall x, slot_at s' x = slot_at s1 x) by (intro; apply slot_at_frame; auto).
+  assert (Hmono : forall x, linked (slot_at s1 x) = true -> linked (slot_at s x) = true).
+  { intros x H. unfold s1 in H. destruct ok.
+    - unfold take in H. rewrite put_linked in H. apply unlink_mark_mono in H. exact H.
+    - apply unlink_mark_mono in H. exact H. }
+  assert (Hnf : linked (slot_at s1 n) = false).
+  { assert (linked (slot_at s0 n) = false) by (unfold s0, unlink_mark; rewrite slot_at_put_eq by exact Hn; reflexivity).
+    unfold s1. destruct ok; auto. unfold take. rewrite put_linked. exact H. }
+  assert (Hsst : forall x, x <> n -> sst (slot_at s1 x) = sst (slot_at s x)).
+  { intros x Hx. unfold s1. destruct ok.
+    - unfold take. rewrite slot_at_put_ne by auto. destruct (unlink_mark_core s n x) as (_ & _ & _ & _ & _ & e6). exact e6.
+    - destruct (unlink_mark_core s n x) as (_ & _ & _ & _ & _ & e6). exact e6. }
+  assert (Hnsc : forall t0, sst (slot_at s1 n) = SCan t0 -> exists t1, sst (slot_at s n) = SCan t1).
+  { intros t0 H. unfold s1 in H. destruct ok.
+    - unfold take in H. rewrite slot_at_put_eq in H by (unfold s0, unlink_mark; rewrite nslots_put; exact Hn). cbn in H. discriminate.
+    - destruct (unlink_mark_core s n n) as (_ & _ & _ & _ & _ & e6). fold s0 in e6. rewrite e6 in H. eauto. }
+  apply (WF_mono s s' I W I').
+  - unfold nslots. rewrite Hlen, Hsl. rewrite (w_len _ W). unfold s1, s0, take, unlink_mark, put_slot. destruct ok; cbn; rewrite ?length_set_nth; reflexivity.
+  - rewrite Hlst. rewrite <- (w_next _ W). apply map_ext_in. intros x Hx. apply Hnx.
+    assert (Hxv : In x (vis s)) by (rewrite Hv; apply in_app_iff; auto).
+    intro Ht. assert (Hxn : x <> n). { intro; subst x. eapply NoDup_app_disj; eauto. cbn; auto. }
+    destruct (i_vis _ I x Hxv) as [_ Hq].
+    assert (In x taken). { unfold taken' in Ht. destruct ok; auto. apply in_app_iff in Ht. destruct Ht as [|[|[]]]; auto. congruence. }
+    destruct (B x H) as [_ Hh]. destruct Hq as [Hq|[t0 Hq]]; congruence.
+  - intros x t0 _ H. rewrite Hs1 in H. auto.
+  - intros x t0 H. rewrite Hs1 in H. destruct (Nat.eq_dec x n) as [->|Hx]; [left; eapply Hnsc; eauto|].
+    rewrite Hsst in H by auto. eauto.
+  - intros x t0 _ Hx. rewrite Hv in Hx. rewrite Hv'. apply in_app_iff in Hx. destruct Hx as [Hx|[<-|Hx]].
+    + left. apply in_app_iff. auto.
+    + right. rewrite Hs1. exact Hnf.
+    + left. apply in_app_iff. auto.
+  - intros t0 m Hm Hp0. exfalso. rewrite Hmtx in Hm. destruct r; [discriminate|]. inversion Hm; subst t0. rewrite Hct in Hp0. eapply Hnw; eauto.
+Qed.
+
+Lemma cklock_wf : forall s t cl n s1,
+  Inv s -> WF s -> nth_error (clients s) t = Some cl -> cst s t = CKLock n -> mtx s = None ->
+  slots s1 = slots s -> clients s1 = clients s -> mtx s1 = mtx s ->
+  length (nxt s1) = length (nxt s) ->
+  (if linked (slot_at s n)
+   then lst s1 = remove_nat n (lst s) /\
+        forall x, nnext s1 x = if match pred_of (lst s) n with Some p => Nat.eqb x p | None => false end then nnext s n else nnext s x
+   else lst s1 = lst s /\ nxt s1 = nxt s) ->
+  Inv (set_client (mark s1 n (SHeld t)) t (goto cl (CKResume n))) ->
+  WF (set_client (mark s1 n (SHeld t)) t (goto cl (CKResume n))).
+Proof.
+  intros s t cl n s1 I W Hcl Hp Em Hsl Hcl1 Hm1 Hlen Hshape I'. set (s' := set_client _ t _) in *.
+  destruct (i_thread _ I t) as (_ & _ & _ & TD & _). rewrite Hp in TD. destruct (TD n) as [Hn Hg]; [cbn; auto|].
+  assert (Hv : vis s = lst s) by (rewrite (vis_eq s (lst s) None); auto; apply app_nil_r).
+  assert (Hv' : vis s' = lst s1).
+  { rewrite (vis_eq s' (lst s1) None); [apply app_nil_r | reflexivity | ]. change (mtx s') with (mtx s1). congruence. }
+  assert (Hsn : forall x, slot_at s' x = if (Nat.eqb x n && (n <? nslots s)%nat)%bool
+                                         then upd_slot (slot_at s n) (ver (slot_at s n)) (linked (slot_at s n)) (SHeld t) else slot_at s x).
+  { intro x. unfold s', mark. change (slot_at (set_client ?a t ?c) x) with (slot_at a x). rewrite slot_at_put.
+    unfold nslots. rewrite Hsl. rewrite (slot_at_frame s s1) by exact Hsl. destruct (Nat.eqb x n && _)%bool; auto.
+    apply slot_at_frame. exact Hsl. }
+  apply (WF_mono s s' I W I').
+  - change (nxt s') with (nxt s1). rewrite Hlen. transitivity (nslots s1); [|exact (eq_sym (nslots_put s1 n _))]. unfold nslots. rewrite Hsl. apply (w_len _ W).
+  - change (lst s') with (lst s1). destruct (linked (slot_at s n)) eqn:El.
+    + destruct Hshape as [Hl Hnx]. rewrite Hl.
+      assert (Hin : In n (lst s)) by (rewrite <- Hv; eapply (w_lk _ W); eauto).
+      pose proof (i_vis_nodup _ I) as Hnd. rewrite Hv in Hnd.
+      rewrite <- (next_remove (nnext s) (lst s) n Hnd (w_next _ W) Hin). apply map_ext. intro x.
+      change (nnext s' x) with (nnext s1 x). apply Hnx.
+    + destruct Hshape as [Hl Hnx]. rewrite Hl. unfold nnext. change (nxt s') with (nxt s1). rewrite Hnx. apply (w_next _ W).
+  - intros x t0 _ H. rewrite Hsn in H. destruct (Nat.eqb x n && (n <? nslots s)%nat)%bool eqn:E; auto.
+    apply andb_prop in E. destruct E as [E _]. apply Nat.eqb_eq in E. subst x. exact H.
+  - intros x t0 H. rewrite Hsn in H. destruct (Nat.eqb x n && (n <? nslots s)%nat)%bool eqn:E; eauto. cbn in H. discriminate.
+  - intros x t0 Hx Hin. rewrite Hv in Hin. rewrite Hv'. left.
+    assert (x <> n).
+    { intro; subst x. rewrite Hsn in Hx. rewrite Nat.eqb_refl in Hx. destruct (Nat.ltb_spec n (nslots s)); [|lia]. cbn in Hx. discriminate. }
+    destruct (linked (slot_at s n)); destruct Hshape as [Hl _]; rewrite Hl; auto. apply remove_nat_keep; auto.
+  - intros t0 m Hm0. change (mtx s') with (mtx s1) in Hm0. rewrite Hm1, Em in Hm0. discriminate.
+Qed.
+
+Ltac wf_simple s t I W I' Hcl Hp :=
+  apply (WF_simple s _ t I W I'); try reflexivity;
+  first [ solve [cne] | solve [cbn; congruence]
+        | solve [erewrite cst_set_eq by exact Hcl; rewrite Hp; reflexivity]
+        | solve [intros ? H; erewrite cst_set_eq in H by exact Hcl; cbn in H; first [discriminate | rewrite Hp; exact H]] ].
+
+Lemma nnext_fix_pred : forall s0 s l n nx x, nxt s0 = nxt s -> (forall p, In p l -> (p < length (nxt s))%nat) ->
+  nnext (fix_pred s0 l n nx) x = if match pred_of l n with Some p => Nat.eqb x p | None => false end then nx else nnext s x.
+Proof.
+  intros s0 s l n nx x H Hl. unfold fix_pred. destruct (pred_of l n) as [p|] eqn:E.
+  - destruct (Nat.eqb_spec x p) as [->|Hn].
+    + unfold nnext, set_nnext. cbn. rewrite H. apply nth_set_nth_eq. apply Hl. eapply pred_of_in; eauto.
+    + rewrite nnext_set_ne by auto. unfold nnext. now rewrite H.
+  - unfold nnext. now rewrite H.
+Qed.
+
+Lemma step_client_wf : forall s t cl s',
+  Inv s -> WF s -> nth_error (clients s) t = Some cl -> step_client cfg_fixed s t cl = Some s' -> WF s'.
+Proof.
+  intros s t cl s' I W Hcl Hst.
+  pose proof (step_client_inv s t cl s' I W Hcl Hst) as I'.
+  pose proof (cst_of _ _ _ Hcl) as Hp.
+  destruct (i_thread _ I t) as (TA & TB & TC & TD & TE).
+  unfold step_client in Hst. destruct (cpcv cl) eqn:Epc; rewrite Hp in TA, TB, TC, TD, TE; cbn [held_pc fin_pc can_pc chain_pc] in *.
+  - (* CIdle *)
+    destruct (nth_error (cprog cl) (copi cl)) as [o|]; [|discriminate]. destruct o.
+    + destruct (mtx s) eqn:Em; [discriminate|]. inversion Hst; subst s'; clear Hst.
+      unfold w1_pop in *. destruct (lst s) as [|n r] eqn:El.
+      * wf_simple s t I W I' Hcl Hp.
+      * cbn [negb] in *. eapply (w1_pop_wf s t cl n r CIdle); eauto.
+    + destruct (mtx s) eqn:Em; [discriminate|]. destruct (lst s) as [|n r] eqn:El; inversion Hst; subst s'; clear Hst.
+      * wf_simple s t I W I' Hcl Hp.
+      * set (s' := set_client _ t _) in *.
+        assert (Hc1 : cst s' t = WATake (n :: r) []) by (unfold s'; ceq Hcl).
+        apply (WF_mono s s' I W I').
+        -- apply (w_len _ W).
+        -- reflexivity.
+        -- intros x t0 _ H. exact H.
+        -- intros x t0 H. eauto.
+        -- intros x t0 _ H. left. rewrite (vis_eq s (n :: r) None) in H by auto. rewrite app_nil_r in H.
+           rewrite (vis_eq s' [] (Some t)) by reflexivity. rewrite Hc1. exact H.
+        -- intros t0 m Hm Hp0. exfalso. change (mtx s') with (Some t) in Hm. inversion Hm; subst t0. rewrite Hc1 in Hp0. discriminate.
+    + destruct (find_token (tokens s) i j) as [[n v]|] eqn:Ef.
+      * destruct (take_ok s n v) eqn:Et; inversion Hst; subst s'; clear Hst.
+        -- apply take_ok_spec in Et. destruct Et as [Hn Hv].
+           apply find_token_in in Ef. pose proof (i_tok _ I _ Ef) as Tk. unfold tok_ok in Tk. cbn in Tk.
+           destruct Tk as (_ & _ & Tq). specialize (Tq (eq_sym Hv)).
+           set (s' := set_client _ t _) in *.
+           assert (Hc1 : cst s' t = CKLock n) by (unfold s'; ceq Hcl).
+           assert (Hc2 : forall t', t' <> t -> cst s' t' = cst s t') by (unfold s'; cne).
+           assert (Hvis : vis s' = vis s) by (apply (vis_same s s' t); auto; rewrite Hc1, Hp; reflexivity).
+           apply (WF_put s s' n (upd_slot (slot_at s n) (ver (slot_at s n) + 1) (linked (slot_at s n)) (SCan t)) I W I'); try reflexivity; auto.
+           ++ apply (w_next _ W).
+           ++ intros x t0 _ H. left. now rewrite Hvis.
+           ++ intros t0 m Hm Hp0. left. split; auto. destruct (Nat.eq_dec t0 t) as [->|Hne]; [rewrite Hc1 in Hp0; discriminate|].
+              rewrite <- Hc2; auto.
+        -- wf_simple s t I W I' Hcl Hp.
+      * inversion Hst; subst s'; clear Hst. wf_simple s t I W I' Hcl Hp.
+    + inversion Hst; subst s'; clear Hst. wf_simple s t I W I' Hcl Hp.
+    + destruct (n <=? length (tokens s))%nat; inversion Hst; subst s'; clear Hst. wf_simple s t I W I' Hcl Hp.
+  - (* W1Take n *)
+    assert (Em : mtx s = Some t) by (apply TE; discriminate).
+    assert (Hv : vis s = lst s ++ [n]) by (rewrite (vis_eq s (lst s) (Some t)); auto; now rewrite Hp).
+    pose proof (w_w1 _ W t n Em Hp) as Hlf.
+    destruct (take_ok s n (nidv (slot_at s n))) eqn:Et; cbn [cfg_fixed w1_stop_ok w1_stop_fail w1_adv] in Hst.
+    + inversion Hst; subst s'; clear Hst. set (s' := set_client _ t _) in *.
+      assert (Hn : (n < nslots s)%nat) by (apply take_ok_spec in Et; tauto).
+      apply (WF_put s s' n (upd_slot (slot_at s n) (ver (slot_at s n) + 1) (linked (slot_at s n)) (SHeld t)) I W I'); try reflexivity; auto.
+      * intros t0 H. cbn in H. discriminate.
+      * apply (w_next _ W).
+      * intros x t0 _ Hx. rewrite Hv in Hx. apply in_app_iff in Hx. destruct Hx as [Hx|[<-|[]]].
+        -- left. rewrite (vis_eq s' (lst s) None) by reflexivity. apply in_app_iff. auto.
+        -- right. unfold s', take. change (slot_at (set_client ?a t ?c) n) with (slot_at a n).
+           change (slot_at (set_mtx ?a None) n) with (slot_at a n). rewrite put_linked. exact Hlf.
+      * intros t0 m Hm. discriminate.
+    + unfold w1_pop in Hst. destruct (lst s) as [|m r] eqn:El.
+      * assert (s' = set_client (set_mtx s None) t (finish_op cl (RW1 0))).
+        { destruct (negb (enc (hd_error []) =? 0)); inversion Hst; reflexivity. }
+        subst s'. clear Hst. set (s' := set_client _ t _) in *.
+        apply (WF_mono s s' I W I').
+        -- apply (w_len _ W).
+        -- change (lst s') with (lst s). change (nnext s') with (nnext s). apply (w_next _ W).
+        -- intros x t0 _ H. exact H.
+        -- intros x t0 H. eauto.
+        -- intros x t0 _ Hx. rewrite Hv in Hx. cbn in Hx. destruct Hx as [<-|[]]. right. exact Hlf.
+        -- intros t0 m0 Hm. discriminate.
+      * cbn [hd_error] in Hst. rewrite enc_some_nz in Hst. cbn [negb] in Hst. inversion Hst; subst s'; clear Hst.
+        eapply (w1_pop_wf s t cl m r (W1Take n)); eauto.
+  - (* W1Resume n *)
+    inversion Hst; subst s'; clear Hst. destruct (resume_node_fields s n) as (R1 & R2 & R3 & R4 & R5).
+    apply (WF_own s _ t n (upd_slot (slot_at s n) (ver (slot_at s n)) (linked (slot_at s n)) (SFin t)) I W I'); try reflexivity; auto.
+    + unfold mark, put_slot. cbn [slots set_client set_clients set_slots]. rewrite R1. unfold slot_at. rewrite R1. reflexivity.
+    + intros t0 H. cbn in H. discriminate.
+    + intros. etransitivity; [apply cst_set_ne; auto|]. apply cst_frame. exact R5.
+    + erewrite cst_set_eq; [rewrite Hp; reflexivity|]. transitivity (nth_error (clients s) t); [f_equal; exact R5|exact Hcl].
+    + intros m H. erewrite cst_set_eq in H; [discriminate|]. transitivity (nth_error (clients s) t); [f_equal; exact R5|exact Hcl].
+  - (* W1Finish n *)
+    inversion Hst; subst s'; clear Hst.
+    apply (WF_own s _ t n (upd_slot (slot_at s n) (ver (slot_at s n)) (linked (slot_at s n)) SFree) I W I'); try reflexivity; auto.
+    + intros t0 H. cbn in H. discriminate.
+    + cne.
+    + erewrite cst_set_eq by exact Hcl. rewrite Hp. reflexivity.
+    + intros m H. erewrite cst_set_eq in H by exact Hcl. discriminate.
+  - (* WATake *)
+    destruct pend as [|n r]; [discriminate|].
+    destruct r as [|n' r'].
+    + set (s0 := unlink_mark s n) in *. set (ok := take_ok s0 n (nidv (slot_at s0 n))) in *.
+      set (s1 := if ok then take s0 n (SHeld t) else s0) in *. set (taken' := if ok then taken ++ [n] else taken) in *.
+      destruct (chain_next_same taken' s1) as (C1 & C2 & C3 & C4 & C5 & C6 & C7 & C8 & C9 & C10).
+      assert (Hs1 : lst s1 = lst s /\ clients s1 = clients s /\ nxt s1 = nxt s).
+      { unfold s1. destruct ok; repeat split; reflexivity. }
+      destruct Hs1 as (D4 & D3 & D5).
+      assert (Hlen : length (nxt (chain_next s1 taken')) = length (nxt s)) by (rewrite chain_next_len; now rewrite D5).
+      assert (Hnx : forall x, ~ In x taken' -> nnext (chain_next s1 taken') x = nnext s x).
+      { intros x Hx. rewrite chain_next_nnext by exact Hx. unfold nnext. now rewrite D5. }
+      destruct taken' as [|a todo] eqn:Etk; inversion Hst; subst s'; clear Hst.
+      * apply (watake_wf s t cl n [] taken CIdle _ I W I' Hcl Hp); fold s0; fold ok; fold s1; try reflexivity; try discriminate.
+        -- exact (f_equal (@length Z) D5).
+        -- intros x _. unfold nnext. change (nxt (set_client ?a t ?c)) with (nxt a). change (nxt (set_mtx ?a None)) with (nxt a). now rewrite D5.
+        -- exact D4.
+        -- intros t' Ht'. etransitivity; [apply cst_set_ne; auto|]. apply cst_frame. exact D3.
+        -- erewrite cst_set_eq; [reflexivity|]. cbn. rewrite D3. exact Hcl.
+      * apply (watake_wf s t cl n [] taken (WAResume a todo 0) _ I W I' Hcl Hp); fold s0; fold ok; fold s1; try reflexivity; try discriminate.
+        -- exact C1.
+        -- exact Hlen.
+        -- intros x Hx. apply Hnx. unfold taken' in Etk. rewrite Etk in Hx. exact Hx.
+        -- exact (eq_trans C4 D4).
+        -- intros t' Ht'. etransitivity; [apply cst_set_ne; auto|]. apply cst_frame. exact (eq_trans C3 D3).
+        -- erewrite cst_set_eq; [reflexivity|]. transitivity (nth_error (clients s) t); [f_equal; exact (eq_trans C3 D3) | exact Hcl].
+    + inversion Hst; subst s'; clear Hst.
+      set (s0 := unlink_mark s n) in *. set (ok := take_ok s0 n (nidv (slot_at s0 n))) in *.
+      assert (Em : mtx s = Some t) by (apply TE; discriminate).
+      apply (watake_wf s t cl n (n' :: r') taken (WATake (n' :: r') (if ok then taken ++ [n] else taken)) _ I W I' Hcl Hp);
+        fold s0; fold ok; try reflexivity; try discriminate; try (destruct ok; reflexivity).
+      * destruct ok; exact Em.
+      * intros t' Ht'. etransitivity; [apply cst_set_ne; auto|]. apply cst_frame. destruct ok; reflexivity.
+      * erewrite cst_set_eq; [reflexivity|]. destruct ok; exact Hcl.
+  - (* WAResume *)
+    inversion Hst; subst s'; clear Hst. destruct (resume_node_fields s cur) as (R1 & R2 & R3 & R4 & R5).
+    apply (WF_own s _ t cur (upd_slot (slot_at s cur) (ver (slot_at s cur)) (linked (slot_at s cur)) (SFin t)) I W I'); try reflexivity; auto.
+    + unfold mark, put_slot. cbn [slots set_client set_clients set_slots]. rewrite R1. unfold slot_at. rewrite R1. reflexivity.
+    + intros t0 H. cbn in H. discriminate.
+    + intros. etransitivity; [apply cst_set_ne; auto|]. apply cst_frame. exact R5.
+    + erewrite cst_set_eq; [rewrite Hp; reflexivity|]. transitivity (nth_error (clients s) t); [f_equal; exact R5|exact Hcl].
+    + intros m H. erewrite cst_set_eq in H; [discriminate|]. transitivity (nth_error (clients s) t); [f_equal; exact R5|exact Hcl].
+  - (* WAFinish *)
+    inversion Hst; subst s'; clear Hst.
+    apply (WF_own s _ t cur (upd_slot (slot_at s cur) (ver (slot_at s cur)) (linked (slot_at s cur)) SFree) I W I'); try reflexivity; auto.
+    + intros t0 H. cbn in H. discriminate.
+    + cne.
+    + erewrite cst_set_eq by exact Hcl. rewrite Hp. reflexivity.
+    + intros m H. erewrite cst_set_eq in H by exact Hcl. discriminate.
+  - (* WANext *)
+    cbn [cfg_fixed wa_adv wa_saved] in Hst. rewrite dec_enc in Hst.
+    destruct todo as [|a r]; cbn [hd_error tl] in Hst; inversion Hst; subst s'; clear Hst; wf_simple s t I W I' Hcl Hp.
+  - (* CKLock *)
+    destruct (mtx s) eqn:Em; [discriminate|].
+    cbn [cfg_fixed unlink_linked unlink_unlinked fix2_nested fix2_nonnull fix2_null] in Hst.
+    assert (Hv : vis s = lst s) by (rewrite (vis_eq s (lst s) None); auto; apply app_nil_r).
+    destruct (TD n) as [Hn Hg]; [cbn; auto|].
+    assert (Hpl : forall p, In p (lst s) -> (p < length (nxt s))%nat).
+    { intros p Hpin. rewrite (w_len _ W). apply (i_vis _ I). rewrite Hv. exact Hpin. }
+    destruct (linked (slot_at s n)) eqn:El.
+    + assert (Hin : In n (lst s)) by (rewrite <- Hv; eapply (w_lk _ W); eauto).
+      destruct (fix_pred_fields (set_lst s (remove_nat n (lst s))) (lst s) n (nnext s n))
+        as (F1 & F2 & F3 & F4 & F5 & F6 & F7 & F8 & F9 & F10).
+      assert (Hfl : length (nxt (fix_pred (set_lst s (remove_nat n (lst s))) (lst s) n (nnext s n))) = length (nxt s)).
+      { unfold fix_pred. destruct (pred_of (lst s) n); [|reflexivity]. unfold set_nnext. cbn. apply length_set_nth. }
+      destruct (nnext s n =? 0) eqn:Enx; cbn [andb] in Hst.
+      * inversion Hst; subst s'; clear Hst.
+        apply (cklock_wf s t cl n _ I W Hcl Hp Em); auto. rewrite El. split; [exact F10|].
+        intro x. apply nnext_fix_pred; auto.
+      * apply Z.eqb_neq in Enx. destruct (next_in (nnext s) (lst s) n (w_next _ W) Hin Enx) as (m & Hm & Hmin).
+        rewrite Hm in Hst. rewrite (memb_in _ _ Hmin) in Hst. inversion Hst; subst s'; clear Hst.
+        assert (Hml : (m < nslots s)%nat) by (apply (i_vis _ I); rewrite Hv; exact Hmin).
+        assert (Hs2 : slots (fix_next (fix_pred (set_lst s (remove_nat n (lst s))) (lst s) n (nnext s n)) m true true) = slots s).
+        { unfold fix_next, put_slot. cbn [slots set_slots]. rewrite F1. unfold slot_at. rewrite F1.
+          rewrite upd_slot_same by (apply (i_linked _ I); exact Hmin). apply set_nth_same. exact Hml. }
+        apply (cklock_wf s t cl n _ I W Hcl Hp Em); auto. rewrite El. split; [exact F10|].
+        intro x. change (nnext (fix_next ?a m true true) x) with (nnext a x). apply nnext_fix_pred; auto.
+    + cbn [andb] in Hst. inversion Hst; subst s'; clear Hst.
+      apply (cklock_wf s t cl n s I W Hcl Hp Em); auto. rewrite El. auto.
+  - (* CKResume *)
+    inversion Hst; subst s'; clear Hst. destruct (resume_node_fields s n) as (R1 & R2 & R3 & R4 & R5).
+    apply (WF_own s _ t n (upd_slot (slot_at s n) (ver (slot_at s n)) (linked (slot_at s n)) (SFin t)) I W I'); try reflexivity; auto.
+    + unfold mark, put_slot. cbn [slots set_client set_clients set_slots]. rewrite R1. unfold slot_at. rewrite R1. reflexivity.
+    + intros t0 H. cbn in H. discriminate.
+    + intros. etransitivity; [apply cst_set_ne; auto|]. apply cst_frame. exact R5.
+    + erewrite cst_set_eq; [rewrite Hp; reflexivity|]. transitivity (nth_error (clients s) t); [f_equal; exact R5|exact Hcl].
+    + intros m H. erewrite cst_set_eq in H; [discriminate|]. transitivity (nth_error (clients s) t); [f_equal; exact R5|exact Hcl].
+  - (* CKFinish *)
+    inversion Hst; subst s'; clear Hst.
+    apply (WF_own s _ t n (upd_slot (slot_at s n) (ver (slot_at s n)) (linked (slot_at s n)) SFree) I W I'); try reflexivity; auto.
+    + intros t0 H. cbn in H. discriminate.
+    + cne.
+    + erewrite cst_set_eq by exact Hcl. rewrite Hp. reflexivity.
+    + intros m H. erewrite cst_set_eq in H by exact Hcl. discriminate.
+Qed.
+
+Lemma succs_cons_enc : forall n l, map enc (succs (n :: l)) = enc (hd_error l) :: map enc (succs l).
+Proof. intros n [|b r]; [reflexivity|]. rewrite succs_cons2. reflexivity. Qed.
+
+Lemma step_coro_wf : forall s i k s',
+  Inv s -> WF s -> nth_error (coros s) i = Some k -> step_coro cfg_fixed s i k = Some s' -> WF s'.
+Proof.
+  intros s i k s' I W Hk Hst.
+  pose proof (step_coro_inv s i k s' I Hk Hst) as I'.
+  pose proof (kstat_of _ _ _ Hk) as Hks.
+  pose proof (i_coro _ I i) as Ci. unfold coro_ok in Ci. rewrite Hks in Ci.
+  unfold step_coro in Hst. destruct (kstv k) eqn:Ek.
+  - destruct (nth_error (kprog k) j) as [w|] eqn:Ew.
+    + unfold emplace in Hst. destruct (freel s) as [|n r] eqn:Ef; inversion Hst; subst s'; clear Hst.
+      * (* new slot *)
+        set (fresh := {| ver := nver s; nidv := nver s; nco := i; nwi := j; nex := kexec k; linked := false; sst := SEmp |}) in *.
+        set (s' := set_coro _ i _) in *.
+        assert (Hso : forall m, (m < nslots s)%nat -> slot_at s' m = slot_at s m).
+        { intros m Hm. unfold slot_at, s'. cbn. apply app_nth1. exact Hm. }
+        assert (Hsx : forall m, slot_at s' m = slot_at s m \/ slot_at s' m = fresh \/ slot_at s' m = dummy_slot).
+        { intro m. destruct (Nat.lt_ge_cases m (nslots s)); [left; auto|]. destruct (Nat.eq_dec m (nslots s)) as [->|].
+          - right; left. unfold slot_at, s', nslots. cbn. rewrite app_nth2 by lia. now rewrite Nat.sub_diag.
+          - right; right. apply slot_at_oob. unfold nslots, s'. cbn. rewrite app_length. cbn. unfold nslots in *. lia. }
+        assert (Hnn : forall x, nnext s' x = nnext s x).
+        { intro x. unfold nnext, s'. cbn. destruct (Nat.lt_ge_cases x (length (nxt s))).
+          - apply app_nth1. auto.
+          - rewrite (nth_overflow (nxt s)) by auto. destruct (Nat.eq_dec x (length (nxt s))) as [->|].
+            + rewrite app_nth2 by lia. now rewrite Nat.sub_diag.
+            + apply nth_overflow. rewrite app_length. cbn. lia. }
+        assert (Hv : vis s' = vis s) by (apply vis_frame; reflexivity).
+        apply (WF_mono s s' I W I').
+        -- unfold nslots, s'. cbn. rewrite !app_length. cbn. pose proof (w_len _ W). unfold nslots in *. lia.
+        -- change (lst s') with (lst s). rewrite <- (w_next _ W). apply map_ext. exact Hnn.
+        -- intros x t0 Hx Hl. destruct (Hsx x) as [e|[e|e]]; rewrite e in *; auto; discriminate.
+        -- intros x t0 Hx. destruct (Hsx x) as [e|[e|e]]; rewrite e in *; eauto; discriminate.
+        -- intros x t0 _ H. left. now rewrite Hv.
+        -- intros t0 m Hm Hp0. left. split; [exact Hm|]. split; [exact Hp0|].
+           intro Hl. destruct (Hsx m) as [e|[e|e]]; rewrite e in *; auto; discriminate.
+      * (* reused slot *)
+        set (fresh := {| ver := nver s; nidv := nver s; nco := i; nwi := j; nex := kexec k; linked := false; sst := SEmp |}) in *.
+        set (s' := set_coro _ i _) in *.
+        assert (Hnf : In n (freel s)) by (rewrite Ef; cbn; auto).
+        destruct (i_free _ I n Hnf) as [Hn Hgn].
+        assert (Hsx : forall m, slot_at s' m = if (Nat.eqb m n && (n <? nslots s)%nat)%bool then fresh else slot_at s m).
+        { intro m. change (slot_at s' m) with (slot_at (put_slot s n fresh) m). apply slot_at_put. }
+        assert (Hv : vis s' = vis s) by (apply vis_frame; reflexivity).
+        assert (Hnl : ~ In n (lst s)).
+        { intro Hx. assert (In n (vis s)) by (unfold vis; apply in_app_iff; auto). destruct (i_vis _ I n H) as [_ [V|[t0 V]]]; congruence. }
+        apply (WF_mono s s' I W I').
+        -- unfold nslots, s', set_nnext, put_slot. cbn. rewrite !length_set_nth. apply (w_len _ W).
+        -- change (lst s') with (lst s). rewrite <- (w_next _ W). apply map_ext_in. intros x Hx.
+           change (nnext s' x) with (nnext (set_nnext (put_slot s n fresh) n 0) x). rewrite nnext_set_ne by (intro; subst; contradiction). reflexivity.
+        -- intros x t0 Hx Hl. rewrite Hsx in Hx, Hl. destruct (Nat.eqb x n && (n <? nslots s)%nat)%bool; auto. discriminate.
+        -- intros x t0 Hx. rewrite Hsx in Hx. destruct (Nat.eqb x n && (n <? nslots s)%nat)%bool; eauto. discriminate.
+        -- intros x t0 _ H. left. now rewrite Hv.
+        -- intros t0 m Hm Hp0. left. split; [exact Hm|]. split; [exact Hp0|].
+           intro Hl. rewrite Hsx in Hl. destruct (Nat.eqb m n && (n <? nslots s)%nat)%bool; auto. discriminate.
+    + inversion Hst; subst s'; clear Hst.
+      apply (WF_simple s _ 0%nat I W I'); try reflexivity; auto.
+  - (* KLock j n *)
+    destruct Ci as (Hn & Hgn & Hco & Hwi).
+    cbn [cfg_fixed cmp_locked] in Hst.
+    destruct (mtx s) eqn:Em; [discriminate|]. destruct (nth_error (kprog k) j) as [[x tok]|] eqn:Ew; [|discriminate].
+    unfold enq_ok in Hst. cbn [cfg_fixed add_when add_rejects] in Hst.
+    assert (Hvs : vis s = lst s) by (rewrite (vis_eq s (lst s) None); auto; apply app_nil_r).
+    assert (Hnl : ~ In n (lst s)).
+    { intro Hx. rewrite <- Hvs in Hx. destruct (i_vis _ I n Hx) as [_ [V|[t0 V]]]; congruence. }
+    destruct (x =? fv s) eqn:Ex; [rewrite (finish_add_fixed_ok _ _ _ _ _ _ _ Ex) in Hst | rewrite finish_add_fixed_fail in Hst];
+      inversion Hst; subst s'; clear Hst.
+    + set (sl' := upd_slot (slot_at s n) (ver (slot_at s n)) true SQueued) in *.
+      set (s' := set_coro _ i _) in *.
+      assert (Hsx : forall m, slot_at s' m = if (Nat.eqb m n && (n <? nslots s)%nat)%bool then sl' else slot_at s m).
+      { intro m. unfold s'. destruct tok; change (slot_at (set_coro ?a i ?c) m) with (slot_at (put_slot s n sl') m); apply slot_at_put. }
+      assert (Hl' : lst s' = n :: lst s) by (unfold s'; destruct tok; reflexivity).
+      assert (Hm' : mtx s' = None) by (unfold s'; destruct tok; exact Em).
+      assert (Hnx' : nxt s' = set_nth n (enc (hd_error (lst s))) (nxt s)) by (unfold s'; destruct tok; reflexivity).
+      assert (Hcl' : clients s' = clients s) by (unfold s'; destruct tok; reflexivity).
+      apply (WF_mono s s' I W I').
+      * rewrite Hnx', length_set_nth. unfold nslots, s'. destruct tok; cbn; rewrite length_set_nth; apply (w_len _ W).
+      * rewrite Hl'. rewrite succs_cons_enc. cbn [map]. f_equal.
+        -- unfold nnext. rewrite Hnx'. apply nth_set_nth_eq. rewrite (w_len _ W). exact Hn.
+        -- rewrite <- (w_next _ W). apply map_ext_in. intros y Hy. unfold nnext. rewrite Hnx'. apply nth_set_nth_ne.
+           intro; subst; contradiction.
+      * intros y t0 Hy Hl. rewrite Hsx in Hy, Hl. destruct (Nat.eqb y n && (n <? nslots s)%nat)%bool; auto. discriminate.
+      * intros y t0 Hy. rewrite Hsx in Hy. destruct (Nat.eqb y n && (n <? nslots s)%nat)%bool; eauto. discriminate.
+      * intros y t0 _ H. left. rewrite (vis_eq s' (n :: lst s) None); auto. rewrite app_nil_r. rewrite Hvs in H. cbn; auto.
+      * intros t0 m Hm. congruence.
+    + set (s' := set_coro _ i _) in *.
+      set (sl' := upd_slot (slot_at s n) (ver (slot_at s n) + 1) (linked (slot_at s n)) SFree).
+      assert (Hsl2 : slots s' = set_nth n sl' (slots s)).
+      { unfold s', release, take, put_slot. cbn [slots set_coro set_coros set_freel set_slots].
+        rewrite set_nth_set_nth. f_equal.
+        change (slot_at (set_slots s ?l) n) with (nth n l dummy_slot). rewrite nth_set_nth_eq by exact Hn. reflexivity. }
+      assert (Hv : vis s' = vis s) by (apply vis_frame; reflexivity).
+      apply (WF_put s s' n sl' I W I'); try reflexivity; auto.
+      * intros t0 H. cbn in H. discriminate.
+      * change (lst s') with (lst s). apply (w_next _ W).
+  - destruct Ci.
+  - discriminate.
+  - inversion Hst; subst s'; clear Hst.
+    apply (WF_simple s _ 0%nat I W I'); try reflexivity; auto.
+  - discriminate.
+Qed.
+
+Lemma WF_init : forall v0 cps kps, WF (init v0 cps kps).
+Proof.
+  intros. constructor; cbn.
+  - reflexivity.
+  - reflexivity.
+  - intros n t Hn. unfold nslots in Hn. cbn in Hn. lia.
+  - intros t n H. discriminate.
+Qed.
+
+Theorem step_inv2 : forall s t s', Inv s /\ WF s -> step cfg_fixed s t = Some s' -> Inv s' /\ WF s'.
+Proof.
+  intros s t s' [I W] H. split; [eapply step_inv; eauto|]. unfold step in H. destruct (t <? length (clients s))%nat.
+  - destruct (nth_error (clients s) t) eqn:E; [|discriminate]. eapply step_client_wf; eauto.
+  - destruct (nth_error (coros s) (t - length (clients s))) eqn:E; [|discriminate]. eapply step_coro_wf; eauto.
+Qed.
+
+Theorem reachable_inv2 : forall v0 cps kps s, reachable st (step cfg_fixed) (init v0 cps kps) s -> Inv s /\ WF s.
+Proof.
+  intros v0 cps kps s H. eapply (inv_reachable st (step cfg_fixed) (fun s => Inv s /\ WF s)); eauto.
+  - split; [apply Inv_init | apply WF_init].
+  - intros. eapply step_inv2; eauto.
+Qed.
+Theorem reachable_inv : forall v0 cps kps s, reachable st (step cfg_fixed) (init v0 cps kps) s -> Inv s.
+Proof. intros. eapply reachable_inv2; eauto. Qed.
 (* ------------------------------------------------------------------ consequences of the invariant *)
 Definition owned_pc (p : cpc) : list nat := held_pc p ++ fin_pc p ++ can_pc p.
 
@@ -1740,11 +2367,50 @@ Definition cfg_cmp_unlocked : cfg :=
   {| w1_adv := fun _ hn => hn; w1_stop_ok := true; w1_stop_fail := false; wa_adv := fun _ ns => ns; wa_saved := fun x => x;
      rel_fail := true; rel_succ := false; cb_tok := true; cb_notok := false;
      add_when := fun e v => negb (Z.eqb e v); add_rejects := true; cmp_locked := false;
-     unlink_linked := true; unlink_unlinked := false |}.
+     unlink_linked := true; unlink_unlinked := false; fix2_nested := true; fix2_nonnull := true; fix2_null := false |}.
 Lemma unlocked_compare_lost_wakeup : exists sch,
   let s := run st (step cfg_cmp_unlocked) (init 0 [[OSetV 1; OWakeAll]] [(0%nat, [(0, false)])]) sch in
   quiescent s = true /\ map cres (clients s) = [[RV; RWA 0]] /\ map kstv (coros s) = [KSusp 0 0] /\ fv s = 1 /\ bad s = 1%nat.
 Proof. exists [1; 1; 0; 0; 1]%nat. vm_compute. auto. Qed.
+
+Lemma reach_wf : forall v0 cps kps s, Reach v0 cps kps s -> WF s.
+Proof. unfold Reach. rewrite gen_cfg_fixed. intros. eapply reachable_inv2; eauto. Qed.
+
+(* the waiter list is a well-formed doubly linked list of waiters of this futex, in every reachable state: no node
+   twice (acyclic), every member has prev set and next = its successor (nullptr for the last), is the node of a
+   coroutine suspended on it, and is untaken or owned by a canceller that has not unlinked it yet.  In particular
+   remove_awaiter only ever writes link fields of members of the list ([bad] = 0, t_resume_once) *)
+Theorem t_list_wellformed : forall v0 cps kps s, Reach v0 cps kps s ->
+  NoDup (lst s) /\
+  map (nnext s) (lst s) = map enc (succs (lst s)) /\
+  (forall n, In n (lst s) ->
+     (n < nslots s)%nat /\ linked (slot_at s n) = true /\
+     kstat s (nco (slot_at s n)) = KSusp (nwi (slot_at s n)) n /\
+     (take_ok s n (nidv (slot_at s n)) = true \/ exists t, cst s t = CKLock n)).
+Proof.
+  intros v0 cps kps s R. pose proof (reach_inv _ _ _ _ R) as I. pose proof (reach_wf _ _ _ _ R) as W.
+  split; [|split].
+  - pose proof (i_vis_nodup _ I) as H. unfold vis in H. eapply NoDup_app_l; eauto.
+  - apply (w_next _ W).
+  - intros n Hin. assert (Hv : In n (vis s)) by (unfold vis; apply in_app_iff; auto).
+    destruct (i_vis _ I n Hv) as [Hn Hs]. split; auto. split; [apply (i_linked _ I); auto|].
+    pose proof (i_slot _ I n Hn) as S. unfold slot_ok in S. destruct Hs as [Hq|[t Hc]].
+    + rewrite Hq in S. destruct S as (_ & _ & S1 & S2 & _). split; auto. left. apply take_ok_spec. auto.
+    + rewrite Hc in S. destruct S as (_ & _ & S1 & S2 & _). split; auto. right. eauto.
+Qed.
+
+(* remove_awaiter with the next->prev fix-up outside the `if (node->prev)` block (seeded change C13e): a canceller whose
+   node wake_all detached writes into the node wake_all took and released *)
+Definition cfg_fix2_unnested : cfg :=
+  {| w1_adv := fun _ hn => hn; w1_stop_ok := true; w1_stop_fail := false; wa_adv := fun _ ns => ns; wa_saved := fun x => x;
+     rel_fail := true; rel_succ := false; cb_tok := true; cb_notok := false;
+     add_when := Z.eqb; add_rejects := false; cmp_locked := true;
+     unlink_linked := true; unlink_unlinked := false; fix2_nested := false; fix2_nonnull := true; fix2_null := false |}.
+Lemma unnested_fixup_stray_write : exists sch,
+  let s := run st (step cfg_fix2_unnested)
+               (init 1 [[OWaitTok 2; OCancel 1 0]; [OWaitTok 2; OWakeAll]] [(0%nat, [(1, true)]); (0%nat, [(1, true)])]) sch in
+  bad s = 1%nat /\ lst s = [] /\ map cpcv (clients s) = [CKResume 1; WAResume 0 [] 0].
+Proof. exists [2; 2; 3; 3; 0; 0; 1; 1; 1; 1; 0]%nat. vm_compute. auto. Qed.
 
 (* regression witnesses: the code before the three repairs (cfg_asis) *)
 Lemma asis_leak : exists sch,
